@@ -153,13 +153,13 @@ theorem invalidItem_ok (k : Key) (v : PyVal) (hk : k ≠ .point) : ∃ b, invali
   unfold invalidItem
   simp [hk, bind, Except.bind, pure, Except.pure]
 
-theorem defineRawAux_ok (cfg : Cfg) (d : RDict) (h : ∀ kv ∈ d, kv.1 ≠ .point) :
-    ∃ raw, defineRawAux cfg d = .ok raw := by
+theorem defineRawAux_ok (d : RDict) (h : ∀ kv ∈ d, kv.1 ≠ .point) :
+    ∃ raw, defineRawAux d = .ok raw := by
   induction d with
   | nil => exact ⟨[], rfl⟩
   | cons kv d ih =>
     obtain ⟨raw, hraw⟩ := ih (fun x hx => h x (List.mem_cons_of_mem _ hx))
-    obtain ⟨b, hb⟩ := invalidItem_ok kv.1 (convertVal cfg kv.1 kv.2) (h kv List.mem_cons_self)
+    obtain ⟨b, hb⟩ := invalidItem_ok kv.1 (convertVal kv.1 kv.2) (h kv List.mem_cons_self)
     obtain ⟨k, rv⟩ := kv
     unfold defineRawAux
     simp only [hb, hraw]
@@ -167,10 +167,10 @@ theorem defineRawAux_ok (cfg : Cfg) (d : RDict) (h : ∀ kv ∈ d, kv.1 ≠ .poi
 
 /-! ### binary keys -/
 
-theorem rawConv_binary_int (cfg : Cfg) (k : Key) (hk : k ∈ binaryMeta) (n : Int) (hn : n = 0 ∨ n = 1) :
-    rawConv cfg k (.str (stripVal (pyStr (.int n)))) = some (.int n) := by
+theorem rawConv_binary_int (k : Key) (hk : k ∈ binaryMeta) (n : Int) (hn : n = 0 ∨ n = 1) :
+    rawConv k (.str (stripVal (pyStr (.int n)))) = some (.int n) := by
   have hktext : k ≠ .text := by intro h; subst h; simp [binaryMeta] at hk
-  have hc : convertVal cfg k (.str (stripVal (pyStr (.int n)))) = .int n := by
+  have hc : convertVal k (.str (stripVal (pyStr (.int n)))) = .int n := by
     simp only [convertVal, pyStr, stripVal_intStr, pyFloat_intStr]
     simp [hktext]
   have hz : isZeroOne (.int n) = true := by
@@ -330,32 +330,21 @@ structure NormalDict (m : Dict) : Prop where
   keysOK : ∀ k ∈ keys m, k ∈ ds9MetaKeys
   binary : ∀ k ∈ binaryMeta, ∀ v, get m k = some v → v = .int 0 ∨ v = .int 1
 
-theorem normalDict_hoistable (cfg : Cfg) {m : Dict} (h : NormalDict m) : NormalDict (hoistable cfg m) := by
-  refine ⟨hoistable_nodup cfg m h.nodup, ?_, ?_⟩
+theorem normalDict_hoistable {m : Dict} (h : NormalDict m) : NormalDict (hoistable m) := by
+  refine ⟨hoistable_nodup m h.nodup, ?_, ?_⟩
   · intro k hk
     apply h.keysOK
     unfold hoistable at hk
-    simp only at hk
-    split at hk
-    · exact (mem_keys_pop.mp (mem_keys_pop.mp hk).2).2
-    · exact (mem_keys_pop.mp hk).2
+    exact (mem_keys_pop.mp hk).2
   · intro k hk v hv
     apply h.binary k hk v
     unfold hoistable at hv
-    simp only at hv
+    rw [get_pop] at hv
     split at hv
-    · rw [get_pop, get_pop] at hv
-      split at hv
-      · simp at hv
-      · split at hv
-        · simp at hv
-        · exact hv
-    · rw [get_pop] at hv
-      split at hv
-      · simp at hv
-      · exact hv
+    · simp at hv
+    · exact hv
 
-theorem binary_get {r : Region} {tp : Str → Prop} [DecidablePred tp] (hm : MetaNormal tp r) {k : Key}
+theorem binary_get {r : Region} (hm : MetaNormal r) {k : Key}
     (hk : k ∈ binaryMeta) {v : PyVal} (hv : get r.mta k = some v) : v = .int 0 ∨ v = .int 1 := by
   have := hm.2.2.1 k hk
   rw [hv] at this
@@ -365,7 +354,7 @@ theorem plain_get_none (k : Key) (hk : k ≠ .default_style) : get plainVisual k
   unfold plainVisual
   rw [get_singleton, if_neg (fun h => hk h.symm)]
 
-theorem normal_serialize (cfg : Cfg) (p : ℕ) (r : Region) (hn : ReaderNormal (TextPlain cfg) p r) :
+theorem normal_serialize (cfg : Cfg) (p : ℕ) (r : Region) (hn : ReaderNormal p r) :
     ∃ d, serializeRegion cfg r = .ok (some d) ∧ NormalDict d.mta ∧
       (∀ k ∈ binaryMeta, get d.mta k = get r.mta k) := by
   obtain ⟨hwf, hex, _, _, _, _, hmeta⟩ := hn
@@ -496,31 +485,33 @@ theorem splitRaw_plain (raw : Dict) (h : ∀ k ∈ keys raw, k ∈ ds9MetaKeys) 
 
 theorem line_fixed (cfg : Cfg) (sky : ℚ → ℚ) (p : ℕ) (hsky : SkyFix sky p) (g : Dict) (ms : List Dict)
     (hsound : HoistSound ms g) (hfrom : ∀ kv ∈ g, ∃ m ∈ ms, kv ∈ m) (hms : ∀ m ∈ ms, NormalDict m)
-    (r : Region) (d : WLine) (hn : ReaderNormal (TextPlain cfg) p r)
+    (r : Region) (d : WLine) (hn : ReaderNormal p r)
     (hd : serializeRegion cfg r = .ok (some d)) (hdn : NormalDict d.mta)
     (hdb : ∀ k ∈ binaryMeta, get d.mta k = get r.mta k)
-    (hmem : hoistable cfg d.mta ∈ ms)
-    (hinc : get r.mta .include = some (.int 1) ∨ Key.include ∉ keys g) :
-    ∃ raw r', defineRaw cfg (gRead g) false (rawDict ((keys g).foldl AL.pop d.mta)) = .ok raw ∧
+    (hmem : hoistable d.mta ∈ ms) :
+    ∃ raw r', defineRaw (gRead g) none (rawDict ((keys g).foldl AL.pop d.mta)) = .ok raw ∧
       makeRegion d.frame d.shape (d.params.map (rnd sky p)) raw = .ok r' ∧ RegionEqv r r' := by
-  have hn' := hn
   obtain ⟨hwf, hex, hnreg, hcoords, hnums, hvalid, hmeta⟩ := hn
   obtain ⟨hvis, hkeys, hbin, hincl, htag, hlabel, htext⟩ := hmeta
   obtain ⟨hcomp, hfn, hsp, htr⟩ := serializeRegion_some hd
   -- keys of `global` are DS9 meta keys
   have hgkeys : ∀ k ∈ keys g, k ∈ ds9MetaKeys := fun k hk =>
-    (normalDict_hoistable cfg hdn).keysOK k (hoist_key_mem hsound hk hmem)
+    (normalDict_hoistable hdn).keysOK k (hoist_key_mem hsound hk hmem)
   -- 1. the raw dictionary
-  have hallkeys : ∀ k ∈ keys (AL.update (AL.update (gRead g) [(Key.include, RVal.str ['1'])])
+  have hallkeys : ∀ k ∈ keys (AL.update (AL.update (gRead g) (includeMeta (gRead g) none))
       (rawDict ((keys g).foldl AL.pop d.mta))), k ∈ ds9MetaKeys := by
     intro k hk
     rcases (mem_keys_update _ _ k).mp hk with h1 | h1
     · rcases (mem_keys_update _ _ k).mp h1 with h2 | h2
       · exact hgkeys k (mem_keys_gRead h2)
-      · simp only [keys, List.map_cons, List.map_nil, List.mem_singleton] at h2
-        rw [h2]; decide
+      · unfold includeMeta at h2
+        simp only at h2
+        split at h2
+        · simp [keys] at h2
+        · simp only [keys, List.map_cons, List.map_nil, List.mem_singleton] at h2
+          rw [h2]; decide
     · exact hdn.keysOK k (mem_keys_popKeys (mem_keys_rawDict h1))
-  obtain ⟨raw, hraw⟩ : ∃ raw, defineRaw cfg (gRead g) false (rawDict ((keys g).foldl AL.pop d.mta)) = .ok raw := by
+  obtain ⟨raw, hraw⟩ : ∃ raw, defineRaw (gRead g) none (rawDict ((keys g).foldl AL.pop d.mta)) = .ok raw := by
     unfold defineRaw
     apply defineRawAux_ok
     intro kv hkv hc
@@ -529,7 +520,7 @@ theorem line_fixed (cfg : Cfg) (sky : ℚ → ℚ) (p : ℕ) (hsky : SkyFix sky 
     revert this; decide
   have hrawkeys : ∀ k ∈ keys raw, k ∈ ds9MetaKeys := by
     intro k hk
-    have hsub := (defineRawAux_spec cfg _ raw (nodup_all (gRead g) _ _ (gRead_nodup g)) hraw).2
+    have hsub := (defineRawAux_spec _ raw (nodup_all (gRead g) _ _ (gRead_nodup g)) hraw).2
     exact hallkeys k (hsub.subset hk)
   -- 2. geometry
   have hwr : WellRounded sky p r := wellRounded_normal sky p hsky r hnums hvalid
@@ -562,8 +553,8 @@ theorem line_fixed (cfg : Cfg) (sky : ℚ → ℚ) (p : ℕ) (hsky : SkyFix sky 
     hrawkeys k (mem_keys_pop.mp hk).2
   obtain ⟨r', hmk⟩ : ∃ r', makeRegion d.frame d.shape (d.params.map (rnd sky p)) raw = .ok r' := by
     unfold makeRegion
-    rw [hgeo]
-    simp only [hsplit, ds9ToVisual_plain]
+    rw [finalShape_of_geometry hgeo]
+    simp only [hsplit, ds9ToVisual_plain, hgeo]
     by_cases ht : rshapeOf r.shape = .text
     · -- a text region: its string comes back as a string
       have hshape : r.shape = .text := by
@@ -575,7 +566,7 @@ theorem line_fixed (cfg : Cfg) (sky : ℚ → ℚ) (p : ℕ) (hsky : SkyFix sky 
       | str s =>
         have hdm : get d.mta .text = some (.str ('{' :: s ++ ['}'])) := by
           rw [translate_get_text htr, hwf.2.2.2.2.1, hwf.2.2.1 hshape, ht']; rfl
-        have hrawtext := raw_text hsound hmem hdn.nodup hraw s hdm htext.1 htext.2
+        have hrawtext := raw_text hsound hmem hdn.nodup hraw s hdm
         simp only [if_pos ht, hrawtext, Option.getD_some, textIsStr, hvalidkeys _ hpopkeys]
         exact ⟨_, rfl⟩
       | _ => exact absurd htext (by simp [StrOK])
@@ -596,6 +587,7 @@ theorem line_fixed (cfg : Cfg) (sky : ℚ → ℚ) (p : ℕ) (hsky : SkyFix sky 
   have hrs_text : rs = .text ↔ r.shape = .text := by
     rw [← hrs]
     cases r.shape <;> simp [rshapeOf] at hcomp ⊢
+  have hmn : MetaNormal r := ⟨hvis, hkeys, hbin, hincl, htag, hlabel, htext⟩
   refine ⟨e1.trans hcls.symm, e2.trans hframe, e3.trans hco.symm, e4.trans hnu.symm, ?_, ?_, ?_⟩
   · -- text
     cases ht : r.text with
@@ -603,7 +595,7 @@ theorem line_fixed (cfg : Cfg) (sky : ℚ → ℚ) (p : ℕ) (hsky : SkyFix sky 
     | some t =>
       rw [ht] at htext
       cases t with
-      | str s => exact hrt.text s ht htext.1 htext.2
+      | str s => exact hrt.text s ht
       | _ => exact absurd htext (by simp [StrOK])
   · -- meta, key by key
     intro k
@@ -616,67 +608,48 @@ theorem line_fixed (cfg : Cfg) (sky : ℚ → ℚ) (p : ℕ) (hsky : SkyFix sky 
           rw [e6]; split
           · exact get_pop_ne _ hkt
           · rfl
-        rw [hr'k]
-        by_cases hki : k = .include
-        · subst hki
-          rw [raw_include hdn.nodup hraw, hdb _ hb]
-          obtain ⟨iv, hiv⟩ := Option.isSome_iff_exists.mp hincl
-          have hiv01 := binary_get ⟨hvis, hkeys, hbin, hincl, htag, hlabel, htext⟩ hb hiv
-          rw [hiv]
-          by_cases hk : Key.include ∈ keys g
-          · rw [if_pos hk]
-            rcases hinc with h1 | h1
-            · rw [hiv] at h1; exact h1.symm
-            · exact absurd hk h1
-          · rw [if_neg hk]
-            simp only
-            rcases hiv01 with rfl | rfl
-            · rw [rawConv_binary_int cfg _ hb 0 (Or.inl rfl)]
-            · rw [rawConv_binary_int cfg _ hb 1 (Or.inr rfl)]
-        · rw [raw_get cfg g d.mta raw hdn.nodup hraw, hdb _ hb]
-          by_cases hk : k ∈ keys g
-          · rw [if_pos hk, if_neg hki]
-            obtain ⟨rv, hrv⟩ := gRead_isSome hk hktag
-            obtain ⟨v, hv, hrv'⟩ := gRead_some hrv
-            obtain ⟨v', hv', hs⟩ := hsound k v hv _ hmem
-            obtain ⟨m, hm, hvm⟩ := hfrom (k, v) hv
-            have hvint := (hms m hm).binary k hb v (get_of_mem (hms m hm).nodup hvm)
-            rw [get_hoistable cfg d.mta k hktag hki, hdb _ hb] at hv'
-            have hv'int := binary_get ⟨hvis, hkeys, hbin, hincl, htag, hlabel, htext⟩ hb hv'
-            have hvv : v = v' := by
-              rcases hvint with rfl | rfl <;> rcases hv'int with rfl | rfl
-              · rfl
-              · exact absurd (pySame_int hs) (by decide)
-              · exact absurd (pySame_int hs) (by decide)
-              · rfl
-            subst hvv
-            have hri : rawItem k v = some (RVal.str (stripVal (pyStr v))) := by
-              unfold rawItem; rw [if_neg hktag]
-            rw [hri] at hrv'
-            simp only [Option.some.injEq] at hrv'
-            subst hrv'
-            rw [hrv, hv']
-            simp only [Option.bind_some]
-            rcases hv'int with rfl | rfl
-            · exact rawConv_binary_int cfg k hb 0 (Or.inl rfl)
-            · exact rawConv_binary_int cfg k hb 1 (Or.inr rfl)
-          · rw [if_neg hk, if_neg hki]
-            cases hv : get r.mta k with
-            | none => simp
-            | some v =>
-              have hvint := binary_get ⟨hvis, hkeys, hbin, hincl, htag, hlabel, htext⟩ hb hv
-              simp only [Option.bind_some, rawItem, if_neg hktag, Option.orElse_some]
-              rcases hvint with rfl | rfl
-              · exact rawConv_binary_int cfg k hb 0 (Or.inl rfl)
-              · exact rawConv_binary_int cfg k hb 1 (Or.inr rfl)
+        rw [hr'k, raw_get g d.mta raw hdn.nodup hraw, hdb _ hb]
+        by_cases hk : k ∈ keys g
+        · -- hoisted: the hoisted value is an int of a normal region, Python-equal to this one's
+          rw [if_pos hk, get_gRead_of_ne_tag g k hktag]
+          obtain ⟨v, hv⟩ := Option.isSome_iff_exists.mp (get_isSome_iff.mpr hk)
+          obtain ⟨v', hv', hs⟩ := hsound k v (get_mem hv) _ hmem
+          obtain ⟨m, hm, hvm⟩ := hfrom (k, v) (get_mem hv)
+          have hvint := (hms m hm).binary k hb v (get_of_mem (hms m hm).nodup hvm)
+          rw [get_hoistable d.mta k hktag, hdb _ hb] at hv'
+          have hv'int := binary_get hmn hb hv'
+          have hvv : v = v' := by
+            rcases hvint with rfl | rfl <;> rcases hv'int with rfl | rfl
+            · rfl
+            · exact absurd (pySame_int hs) (by decide)
+            · exact absurd (pySame_int hs) (by decide)
+            · rfl
+          subst hvv
+          rw [hv, hv']
+          simp only [Option.map_some, Option.bind_some]
+          rcases hv'int with rfl | rfl
+          · exact rawConv_binary_int k hb 0 (Or.inl rfl)
+          · exact rawConv_binary_int k hb 1 (Or.inr rfl)
+        · rw [if_neg hk]
+          cases hv : get r.mta k with
+          | none =>
+            -- only `include` has a default, and a normal region always carries `include`
+            by_cases hki : k = .include
+            · subst hki; rw [hv] at hincl; simp at hincl
+            · simp [hki]
+          | some v =>
+            have hvint := binary_get hmn hb hv
+            simp only [Option.bind_some, rawItem, if_neg hktag, Option.orElse_some]
+            rcases hvint with rfl | rfl
+            · exact rawConv_binary_int k hb 0 (Or.inl rfl)
+            · exact rawConv_binary_int k hb 1 (Or.inr rfl)
       · -- tag
         cases hg : get r.mta .tag with
         | none => exact hrt.tags_none hg
         | some t =>
           rw [hg] at htag
           cases t with
-          | strs l =>
-            rw [hrt.tags l hg htag.2, if_neg htag.1]
+          | strs l => rw [hrt.tags l hg, if_neg htag]
           | _ => exact absurd htag (by simp)
       · -- text label
         by_cases hs : r.shape = .text
@@ -686,7 +659,7 @@ theorem line_fixed (cfg : Cfg) (sky : ℚ → ℚ) (p : ℕ) (hsky : SkyFix sky 
           | some t =>
             rw [hl] at hlabel
             cases t with
-            | str s => exact hrt.label hs s hl hlabel.1 hlabel.2
+            | str s => exact hrt.label hs s hl
             | _ => exact absurd hlabel (by simp [StrOK])
     · -- other keys are absent on both sides
       have h1 : get r.mta k = none := by
@@ -706,7 +679,6 @@ theorem line_fixed (cfg : Cfg) (sky : ℚ → ℚ) (p : ℕ) (hsky : SkyFix sky 
     intro k
     rw [e7, ← hvis', toRegionVisual_plain, hvis]
 
-
 /-! ### list plumbing for the total statement -/
 
 theorem collect_ok (f : Region → Except String (Option WLine)) (rs : List Region)
@@ -721,12 +693,12 @@ theorem collect_ok (f : Region → Except String (Option WLine)) (rs : List Regi
     unfold collect
     simp only [hd, hds]
 
-theorem fixed_lines (cfg : Cfg) (sky : ℚ → ℚ) (p : ℕ) (G : RDict) (g : Dict) (Q : Region → Region → Prop)
+theorem fixed_lines (sky : ℚ → ℚ) (p : ℕ) (G : RDict) (g : Dict) (Q : Region → Region → Prop)
     (rs : List Region) (ds : List WLine)
     (h : List.Forall₂ (fun r d => ∃ raw r',
-      defineRaw cfg G false (rawDict ((keys g).foldl AL.pop d.mta)) = .ok raw ∧
+      defineRaw G none (rawDict ((keys g).foldl AL.pop d.mta)) = .ok raw ∧
       makeRegion d.frame d.shape (d.params.map (rnd sky p)) raw = .ok r' ∧ Q r r') rs ds) :
-    ∃ rd out, expectRaw cfg sky p G (ds.map (dropGlobal g)) = .ok rd ∧ makeAll rd = .ok out ∧
+    ∃ rd out, expectRaw sky p G (ds.map (dropGlobal g)) = .ok rd ∧ makeAll rd = .ok out ∧
       List.Forall₂ Q rs out := by
   induction h with
   | nil => exact ⟨[], [], rfl, rfl, List.Forall₂.nil⟩
@@ -759,12 +731,6 @@ theorem forall₂_exists_right {α β : Type} {R : α → β → Prop} {as : Lis
     · exact ⟨b, List.mem_cons_self, hab⟩
     · obtain ⟨b0, hb0, h0⟩ := ih ha'
       exact ⟨b0, List.mem_cons_of_mem _ hb0, h0⟩
-
-theorem get_hoistable_include (cfg : Cfg) (hc : cfg.includeInt = false) (m : Dict) :
-    get (hoistable cfg m) .include = get m .include := by
-  unfold hoistable
-  simp only [hc, Bool.false_eq_true, if_false]
-  exact get_pop_ne _ (by decide)
 
 
 end RegionsVerif.Impl.Ds9
